@@ -48,6 +48,15 @@ def _run_harness(exe, args, seed):
 
 def run(tier, replay=None):
     r = vlib.Run("C15", tier)
+    if replay:
+        # a replay file names the seed (and tier) of the run that produced it: the same objects are regenerated and the
+        # failing case reappears in the FAIL/MISMATCH lines (the streams themselves are in the file's `case`)
+        import json
+        try:
+            data = json.load(open(replay))
+            r.seed = int(data.get("seed", r.seed))
+        except (OSError, ValueError):
+            pass
     # 2. Coq: translated kernels + theorems (+ extraction target, built even if a proof breaks)
     cres = vlib.coq_check("C15", targets=["theories/Extract_C15.vo", "theories/Properties_C15.vo"])
     # 1./3. implementation runs: ASan+UBSan (round trips, every truncation, safe tensor corruptions) and plain build
@@ -183,7 +192,7 @@ def run(tier, replay=None):
                    "parameter kinds, random configurables and features, every registered loss/solver/tuner/splitter/line-search "
                    "with random valid parameter values, fitted linear and gradient boosting models and every weak learner type; "
                    "per object: the full read, EVERY strict prefix (exhaustive), single-byte corruptions (quick: all positions of tensor "
-                   "streams up to 600 bytes and of other streams up to 160 bytes, thorough: up to 4000 resp. 1500 bytes; longer streams: the "
+                   "streams up to 600 bytes and of other streams up to 160 bytes, thorough: up to 4000 resp. 1000 bytes; longer streams: the "
                    "first 64 bytes + a random sample; 2-3 replacement bytes each incl. sign/top bits). "
                    "evaluations = reads of the real reader; distinct non-trivial = distinct (stream, non-empty prefix length) and "
                    "(stream, position, byte) cases")
